@@ -19,6 +19,21 @@ CLAIMED = {
         note="Trusted: Lean kernel; correspondence harness; valid sized RPUs are built by padding the data before the CRC32.",
         design="DESIGN.md section 7 C15",
         technique="Lean 4 proof (arithmetic of the two-group code) + per-size model/implementation digest + exhaustive direct oracle"),
+    "C03": dict(
+        text="Random sequences of public operations (conversions, crops, offsets, source PQ, scene cut, mapping/CM v4.0 removal, block add/replace/remove with full-integer-range values, level copy) are applied to structured RPUs by the Lean model (Model/Ops.lean, RpuWrite.lean) and by the real code; the written bytes are re-parsed by the real parser and by the model parser and compared field for field with the in-memory structure; CRC/terminator recomputed independently. Lean theorems: the written tail is crc32(body) ++ 0x80 ++ trailing zeros; out-of-range values, invalid blocks and invalid RPUs are never written.",
+        note="Trusted: Lean kernel, harness, generator. Known findings F13-F16 (documented in known_findings.json) are matched by shape. The whole-RPU write/parse soundness theorem is stated in DESIGN.md and proved for the primitives and the tail so far.",
+        design="DESIGN.md section 7 C03",
+        technique="Lean 4 proof over the writer model + model/implementation correspondence on operation sequences + re-parse oracle"),
+    "C04": dict(
+        text="Every mode 0..5 (and out-of-range integers) on every structured/sample RPU, once and twice, through the library and the CLI editor surface: documented target profile/EL/mapping from the re-parsed output, DM payload equality, encodes and re-parses, idempotence, surface equality; the Lean conversion model is compared with the real one on every case. Lean theorems: the raw-integer and CLI mode maps agree, out-of-range is lossless, unsupported sources are errors, mode 4 target, set_p81_coeffs keeps the DM payload, mode 0 leaves the structure.",
+        note="Trusted: Lean kernel, harness. Known findings F8, F12, F13 matched by shape. Stream-level surfaces (-m, --edit-config) are compared with the library conversion in C05-C07.",
+        design="DESIGN.md section 7 C04",
+        technique="Lean 4 proof (decision tables of the conversion model) + model/implementation correspondence + table oracle"),
+    "C12": dict(
+        text="Lean theorems about the container model (count equals number of blocks after every touching operation, sorting only permutes, add/remove keep the level invariant, absent container is a no-op or an error); the model's result after every operation of random sequences is compared with the real code's JSON, and the invariants (level routing, count, sortedness of the touched container, keyed upsert) are checked on the real code's JSON after every operation.",
+        note="Trusted: Lean kernel, harness. Operations are applied through the public Rust API in-process.",
+        design="DESIGN.md section 7 C12",
+        technique="Lean 4 proof (invariants of the container model) + per-operation model/implementation correspondence + invariant oracle"),
     "C08": dict(
         text="Every parsing entry point (raw RPU, UNSPEC62 NAL, AV1 T.35 OBU, ST 2094-10 SEI, RPU .bin file, C API wrappers) is run on mutated, truncated, extreme-valued and random inputs under an address-space limit and time limits; the outcome class must be ok|err and must equal the class predicted by the executable Lean model (which marks third-party panic sites explicitly) for the modelled entry points; Lean theorems state the guards of the model (short buffers are errors, bit reader never panics).",
         note="Partial: time and memory are runtime facts observed under limits, not proved; ST 2094-10 and the file reader are exercised by direct oracle only; third-party exp-Golomb panics are known findings matched by panic site.",
